@@ -59,7 +59,8 @@ func (r *RedisInputStream) ensureFill() error {
 }
 
 func (r *RedisInputStream) readLine() (string, error) {
-	buf := ""
+	// bytes, not runes: string(b) of a byte above 0x7f would be its two-byte UTF-8 encoding
+	var buf []byte
 	for {
 		err := r.ensureFill()
 		if err != nil {
@@ -77,16 +78,15 @@ func (r *RedisInputStream) readLine() (string, error) {
 			if c == '\n' {
 				break
 			}
-			buf += string(b)
-			buf += string(c)
+			buf = append(buf, b, c)
 		} else {
-			buf += string(b)
+			buf = append(buf, b)
 		}
 	}
-	if buf == "" {
+	if len(buf) == 0 {
 		return "", newConnectError("It seems like server has closed the connection.")
 	}
-	return buf, nil
+	return string(buf), nil
 }
 
 func (r *RedisInputStream) readLineBytes() ([]byte, error) {
